@@ -15,17 +15,75 @@ import traceback
 import z3
 
 from .kinds import *  # noqa
+from .state import SV
 
 
-def py_of(model, term, kind):
+_CTX = {}
+
+
+def _str_of(model, sterm):
+    """Strings are only constrained through the uninterpreted float-literal predicates: realise
+    them by a genuine literal with the model's value (or a genuine non-literal)."""
+    from . import lib
+    raw = sterm.as_string()
+    ok = z3.is_true(model.eval(lib._float_of_str_ok(sterm), model_completion=True))
+    if ok:
+        fv = py_of(model, lib._float_of_str(sterm), KFloat)
+        return repr(fv)
+    try:
+        float(raw)
+        return "x" + raw
+    except ValueError:
+        return raw
+
+
+def _list_items(model, ref_term, lkind, depth):
+    eng, st = _CTX["eng"], _CTX["st"]
+    n_, e_ = eng.lnames(lkind)
+    na, ea = st.heap0.get(n_), st.heap0.get(e_)
+    if na is None:
+        return []
+    n = model.eval(na[ref_term], model_completion=True).as_long()
+    n = max(0, min(n, 40))
+    if ea is None:
+        ea = eng.harr(st, e_)
+    return [py_of(model, ea[ref_term][i], lkind.elem, depth + 1) for i in range(n)]
+
+
+def py_of(model, term, kind, depth=0):
+    if depth > 4:
+        raise ValueError("too deep")
     v = model.eval(term, model_completion=True)
+    if isinstance(kind, KList):
+        if v.as_long() == 0:
+            return None
+        return _list_items(model, v, kind, depth)
+    if isinstance(kind, KRef):
+        if v.as_long() == 0:
+            return None
+        eng, st = _CTX["eng"], _CTX["st"]
+        cls = eng.class_by_name(kind.cls)
+        obj = object.__new__(cls)
+        for nm in [x.__name__ for x in cls.__mro__]:
+            for f in eng.reg.schemas.get(nm, {}):
+                if f.startswith("g_"):
+                    continue
+                hname, fk = eng.fname(kind.cls, f)
+                arr = st.heap0.get(hname)
+                if arr is None:
+                    continue
+                try:
+                    object.__setattr__(obj, f, py_of(model, arr[v], fk, depth + 1))
+                except Exception:
+                    pass
+        return obj
     if kind is KInt or isinstance(kind, KEnum):
         x = v.as_long()
         return kind.cls(x) if isinstance(kind, KEnum) else x
     if kind is KBool:
         return z3.is_true(v)
     if kind is KStr:
-        return v.as_string()
+        return _str_of(model, v)
     if kind is KFloat:
         Fs = F()
         d = v.decl().name()
@@ -48,35 +106,82 @@ def py_of(model, term, kind):
         if d == "vint":
             return v.arg(0).as_long()
         if d == "vstr":
-            return v.arg(0).as_string()
+            return _str_of(model, v.arg(0))
         if d == "vflt":
             return py_of(model, v.arg(0), KFloat)
+        if d in ("vlist", "vtuple"):
+            items = _list_items(model, v.arg(0), KList(KVal), depth)
+            return items if d == "vlist" else tuple(items)
         raise ValueError("container Val in model")
     raise ValueError("cannot concretise kind %s" % kind)
+
+
+def small_model(eng, st, ob):
+    """Ask again for a model in which the containers reachable from the parameters are short
+    (counterexamples with 80 000-element lists do not replay well)."""
+    if ob.pc is None:
+        return ob.model
+    extra = []
+
+    def size_terms(sv, depth=0):
+        k = sv.kind
+        if depth > 2 or sv.term is None:
+            return
+        if isinstance(k, KList):
+            extra.append(eng.list_len(st, sv) <= 3)
+        elif isinstance(k, KDict):
+            extra.append(eng.dict_size(st, sv) <= 3)
+        elif k is KVal:
+            V = val_sort()
+            extra.append(eng.list_len(st, SV(KList(KVal), V.lr(sv.term))) <= 3)
+            extra.append(eng.list_len(st, SV(KList(KVal), V.tr(sv.term))) <= 3)
+            extra.append(z3.Length(V.s(sv.term)) <= 3)
+        elif isinstance(k, KRef):
+            cls = eng.class_by_name(k.cls)
+            for nm in ([x.__name__ for x in cls.__mro__] if cls else []):
+                for f in eng.reg.schemas.get(nm, {}):
+                    try:
+                        hname, fk = eng.fname(k.cls, f)
+                    except Exception:
+                        continue
+                    if hname in st.heap0 and isinstance(fk, (KList, KDict)):
+                        size_terms(SV(fk, st.heap0[hname][sv.term]), depth + 1)
+    saved = st.heap
+    st.heap = dict(st.heap0)
+    eng.spec_mode += 1
+    try:
+        for name, sv in st.fn_ctx.pre_env.items():
+            size_terms(sv)
+    finally:
+        eng.spec_mode -= 1
+        st.heap = saved
+    s = z3.Solver()
+    s.set("timeout", 5000)
+    for p in ob.pc:
+        s.add(p)
+    s.add(z3.Not(ob.goal))
+    for e in extra:
+        s.add(e)
+    if s.check() == z3.sat:
+        return s.model()
+    return ob.model
 
 
 def model_hook(eng, st, fi, c, ob):
     model = ob.model
     if model is None:
         return
+    from .state import SV
+    try:
+        model = small_model(eng, st, ob)
+    except Exception:
+        model = ob.model
     env0 = st.fn_ctx.pre_env
     args = {}
+    _CTX["eng"], _CTX["st"] = eng, st
     import inspect
     for name, sv in env0.items():
-        if name == "self" and isinstance(sv.kind, KRef):
-            cls = eng.class_by_name(sv.kind.cls)
-            obj = cls.__new__(cls)
-            names = [x.__name__ for x in cls.__mro__]
-            for nm in names:
-                for f in eng.reg.schemas.get(nm, {}):
-                    hname, kind = eng.fname(sv.kind.cls, f)
-                    arr = st.heap0.get(hname)
-                    if arr is None:
-                        continue
-                    setattr(obj, f, py_of(model, arr[sv.term], kind))
-            args[name] = obj
-        else:
-            args[name] = py_of(model, sv.term, sv.kind)
+        args[name] = py_of(model, sv.term, sv.kind)
     ob.info["replay"] = run_real(fi.file, fi.qualname, args, ob.info.get("clause"), ob.info.get("outcome"),
                                  ob.info.get("expected"), ob.name)
 
@@ -97,7 +202,12 @@ RT = {"implies": lambda a, b: (not a) or b, "iff": lambda a, b: bool(a) == bool(
 
 def run_real(file, qualname, args, clause, outcome, expected, obname):
     m, f = _resolve(file, qualname)
-    old = copy.deepcopy(args)
+    old = {}
+    for k, v in args.items():
+        try:
+            old[k] = copy.deepcopy(v)
+        except Exception:
+            old[k] = v
     rec = {"function": "%s:%s" % (file, qualname), "args": {k: repr(v) for k, v in args.items()}, "obligation": obname}
     try:
         res = f(**args)
